@@ -1574,7 +1574,10 @@ func ruleLegacySelect(c *Ctx) {
 		switch x := in.(type) {
 		case ssa.CallInstruction:
 			if f := calleeFunc(x.Common()); f != nil && strings.Contains(f.Name(), "Legacy") {
-				return true
+				// a legacy encoder of the reference tree — not a new predicate such as usesLegacyEncoding()
+				if sf := x.Common().StaticCallee(); sf == nil || p.onReferenceTree(sf) {
+					return true
+				}
 			}
 		case *ssa.ChangeType:
 			return strings.Contains(x.Type().String(), "Legacy")
@@ -1590,16 +1593,16 @@ func ruleLegacySelect(c *Ctx) {
 		}
 		top := TopLevel(fn)
 		selfLegacy := strings.Contains(top.Name(), "Legacy")
-		var tests []*ssa.If
-		for _, b := range fn.Blocks {
-			if i := blockIf(b); i != nil {
-				if _, proper, isTest := versionTest(i); isTest {
-					nTests++
-					c.inst(1)
-					tests = append(tests, i)
-					c.check(proper, fnName(fn), "a protocol version is compared as `version < 1.2.1` (legacy below, current from 1.2.1 on)", p.InstrPos(i), "version < versionSoftResourceReferenceAndDataValue",
-						"the negotiated protocol version is compared in another way than `< versionSoftResourceReferenceAndDataValue`: a client that negotiated exactly 1.2.1 (or a neighbouring version) is served the other dialect — soft references and data values arrive in a form it cannot read")
-				}
+		for _, in := range instrsOf(fn) {
+			bo, isBo := in.(*ssa.BinOp)
+			if !isBo {
+				continue
+			}
+			if _, proper, isTest := versionTest(&ssa.If{Cond: bo}); isTest {
+				nTests++
+				c.inst(1)
+				c.check(proper, fnName(fn), "a protocol version is compared as `version < 1.2.1` (legacy below, current from 1.2.1 on)", p.InstrPos(bo), "version < versionSoftResourceReferenceAndDataValue",
+					"the negotiated protocol version is compared in another way than `< versionSoftResourceReferenceAndDataValue`: a client that negotiated exactly 1.2.1 (or a neighbouring version) is served the other dialect — soft references and data values arrive in a form it cannot read")
 			}
 		}
 		if selfLegacy {
@@ -1614,6 +1617,46 @@ func ruleLegacySelect(c *Ctx) {
 				if ld, proper, isTest := versionTest(i); isTest && proper {
 					return ld, true
 				}
+				// `legacy := s.usesLegacyEncoding()` … `if legacy`: a local holding the result of a predicate that
+				// returns the version test
+				v := i.Cond
+				neg := false
+				if u, ok := v.(*ssa.UnOp); ok && u.Op == token.NOT {
+					v, neg = u.X, true
+				}
+				if u, ok := v.(*ssa.UnOp); ok && u.Op == token.MUL {
+					if al, ok := u.X.(*ssa.Alloc); ok {
+						var val ssa.Value
+						ns := 0
+						for _, r := range *al.Referrers() {
+							if st, ok := r.(*ssa.Store); ok && st.Addr == ssa.Value(al) {
+								val = st.Val
+								ns++
+							}
+						}
+						if ns == 1 {
+							v = val
+						}
+					}
+					if fv, ok := u.X.(*ssa.FreeVar); ok {
+						if mc := p.parent[fv.Parent()]; mc != nil {
+							for bi, f2 := range fv.Parent().FreeVars {
+								if f2 == fv && bi < len(mc.Bindings) {
+									if al, ok := mc.Bindings[bi].(*ssa.Alloc); ok {
+										for _, r := range *al.Referrers() {
+											if st, ok := r.(*ssa.Store); ok && st.Addr == ssa.Value(al) {
+												v = st.Val
+											}
+										}
+									}
+								}
+							}
+						}
+					}
+				}
+				if isProperExprLS(p, v, versionTest) {
+					return !neg, true
+				}
 				return false, false
 			}
 			wrong := func(i *ssa.If) (bool, bool) {
@@ -1626,9 +1669,95 @@ func ruleLegacySelect(c *Ctx) {
 			if !okU && fn.Parent() == nil && p.guardedUp(in, under, 0) {
 				okU = true
 			}
+			if !okU {
+				// the selection handed down as a bool parameter (populate(r, indirect, legacy)): the marker lies on the
+				// true edge of that parameter, and every caller passes the version test (or its own such parameter)
+				isProperExpr := func(v ssa.Value) bool {
+					v = stripConv(v)
+					if bo, ok := v.(*ssa.BinOp); ok {
+						ld, proper, isTest := versionTest(&ssa.If{Cond: bo})
+						return isTest && proper && ld
+					}
+					if cl, ok := v.(*ssa.Call); ok {
+						if sf := cl.Call.StaticCallee(); sf != nil && p.isRepoFn(sf) {
+							for _, in2 := range instrsOf(sf) {
+								if r, ok := in2.(*ssa.Return); ok && len(r.Results) == 1 {
+									if bo, ok := r.Results[0].(*ssa.BinOp); ok {
+										ld, proper, isTest := versionTest(&ssa.If{Cond: bo})
+										return isTest && proper && ld
+									}
+								}
+							}
+						}
+					}
+					return false
+				}
+				top := TopLevel(fn)
+				for pi, prm := range top.Params {
+					if bt, ok := prm.Type().Underlying().(*types.Basic); !ok || bt.Kind() != types.Bool {
+						continue
+					}
+					byParam := func(i *ssa.If) (bool, bool) {
+						if i.Cond == ssa.Value(prm) {
+							return true, true
+						}
+						return false, false
+					}
+					if p.guardedBy(in, byParam) == nil {
+						continue
+					}
+					all, any := true, false
+					if node := p.CG.Nodes[top]; node != nil {
+						for _, e := range node.In {
+							if e.Site == nil || e.Site.Common().StaticCallee() != top {
+								continue
+							}
+							any = true
+							args := callArgs(e.Site.Common())
+							if pi >= len(args) {
+								all = false
+								continue
+							}
+							a := stripConv(args[pi])
+							if ap, isP := a.(*ssa.Parameter); isP && ap.Parent() == top {
+								continue // handed down unchanged in the recursion
+							}
+							if b, isC := constBool(a); isC {
+								if !b {
+									continue // never selects the legacy form
+								}
+								if strings.Contains(TopLevel(e.Caller.Func).Name(), "Legacy") {
+									continue // the legacy twin kept as a thin wrapper
+								}
+							}
+							if !isProperExpr(a) {
+								all = false
+							}
+						}
+					}
+					if any && all {
+						okU = true
+					}
+				}
+			}
 			bad := ""
 			if !okU {
-				bad = "a legacy encoder is used on a path that has not established that the client's protocol version is below 1.2.1: current clients are sent the 1.2.0 dialect (soft references as strings, data values as placeholders)"
+				// decided only where the selection is made next to the use: the function (with its closures) consults
+				// the version itself. A selection carried by an enum, a strategy object or a parameter whose callers
+				// are not in view is not re-derived here.
+				local := false
+				for _, g := range []*ssa.Function{fn} {
+					for _, in3 := range instrsOf(g) {
+						if bo, ok := in3.(*ssa.BinOp); ok {
+							if _, _, isTest := versionTest(&ssa.If{Cond: bo}); isTest {
+								local = true
+							}
+						}
+					}
+				}
+				if local {
+					bad = "a legacy encoder is used on a path that has not established that the client's protocol version is below 1.2.1: current clients are sent the 1.2.0 dialect (soft references as strings, data values as placeholders)"
+				}
 			}
 			if p.guardedBy(in, wrong) != nil {
 				bad = "a legacy encoder is used on the branch for clients at or above 1.2.1 (the selection is inverted)"
@@ -1779,4 +1908,26 @@ func ruleReadyContinuationLive(c *Ctx) {
 	if n == 0 {
 		c.viol("server.Subscription", "a continuation that waited for references sends only for a live subscription", "-", "no such continuation found")
 	}
+}
+
+// isProperExprLS: v is the version test `version < 1.2.1` itself or a call of a predicate that returns it.
+func isProperExprLS(p *Prog, v ssa.Value, versionTest func(*ssa.If) (bool, bool, bool)) bool {
+	v = stripConv(v)
+	if bo, ok := v.(*ssa.BinOp); ok {
+		ld, proper, isTest := versionTest(&ssa.If{Cond: bo})
+		return isTest && proper && ld
+	}
+	if cl, ok := v.(*ssa.Call); ok {
+		if sf := cl.Call.StaticCallee(); sf != nil && p.isRepoFn(sf) {
+			for _, in2 := range instrsOf(sf) {
+				if r, ok := in2.(*ssa.Return); ok && len(r.Results) == 1 {
+					if bo, ok := r.Results[0].(*ssa.BinOp); ok {
+						ld, proper, isTest := versionTest(&ssa.If{Cond: bo})
+						return isTest && proper && ld
+					}
+				}
+			}
+		}
+	}
+	return false
 }
